@@ -92,7 +92,7 @@ type undoRec struct {
 }
 
 type Stats struct {
-	OtherShard int // decision prefixes left to other shards
+	OtherShard    int // decision prefixes left to other shards
 	Paths         int
 	PathsByEnd    map[string]int
 	Instrs        int64
